@@ -4,10 +4,12 @@
 # extraction, OCaml driver, and a first build of the sanitizer harness.
 set -e
 cd "$(dirname "$0")"
-python3 gen/src_constants.py
-python3 gen/ast_translate.py
-python3 gen/ast_translate64.py
-python3 gen/ast_translate_ptr.py
+python3 - <<'PY'
+import sys, json
+sys.path.insert(0, '.')
+from vlib import common as C
+print(json.dumps(C.regen_constants())[:2000])
+PY
 cd coq
 coq_makefile -f _CoqProject -o Makefile > /dev/null
 timeout 7000 make -j16
